@@ -87,6 +87,20 @@ def run_system(args):
                 deliv.append({'to': self.to, 'ev': eid, 'par': par, 'dl': e.data.get('delay', 0),
                               'cls': type(e).__name__})
         inbox = [Box(N + 1 + k) for k in range(K)]
+
+        class Detacher(Box):
+            """On every event it receives, detaches the listener bound right after it on the same sender."""
+
+            def __init__(self, sender):
+                super().__init__(N + K + 1)
+                self.sender = sender
+
+            def __call__(self, e):
+                super().__call__(e)
+                hs = handles[self.sender]
+                pos = [k for k, h_ in enumerate(hs) if getattr(h_, '_callable', None) is self]
+                if pos and pos[0] + 1 < len(hs):
+                    runs[self.sender].interp.detach(hs.pop(pos[0] + 1))
         harness = {'on': False}
         for i, r in enumerate(runs):
             real = r.interp.queue
@@ -108,12 +122,14 @@ def run_system(args):
             for b in inbox:
                 del b.items[:]
             op = h['op']
+            if op == 'detach' and not (1 <= h['a'] <= len(handles[i])):
+                continue        # nothing to detach at that index (a detaching callable may have removed it)
             if op in ('bind', 'detach'):
                 o = r.call({'op': 'adv', 'd': 0})
                 o['op'] = op
                 if op == 'bind':
                     t = h['a']
-                    target = runs[t - 1].interp if t <= N else inbox[t - N - 1]
+                    target = runs[t - 1].interp if t <= N else (inbox[t - N - 1] if t <= N + K else Detacher(i))
                     handles[i].append(r.interp.bind(target))
                 else:
                     r.interp.detach(handles[i].pop(h['a'] - 1))
@@ -180,10 +196,10 @@ def main(prop, tier, seed, replay_path=None):
                 i = rng.randint(1, N)
                 r = rng.random()
                 if r < 0.2 and nb[i - 1] < 3:
-                    h.append({'op': 'bind', 'i': i, 'a': rng.randint(1, N + K), 'b': 0, 'c': 0})
+                    h.append({'op': 'bind', 'i': i, 'a': rng.randint(1, N + K + 1), 'b': 0, 'c': 0})
                     nb[i - 1] += 1
                 elif r < 0.28 and nb[i - 1] > 0:
-                    h.append({'op': 'detach', 'i': i, 'a': rng.randint(1, nb[i - 1]), 'b': 0, 'c': 0})
+                    h.append({'op': 'detach', 'i': i, 'a': 1, 'b': 0, 'c': 0})
                     nb[i - 1] -= 1
                 elif r < 0.5:
                     h.append({'op': 'queue', 'i': i, 'a': rng.choice([1, 2, 3]), 'b': 0, 'c': rng.choice([0, 0, 1])})
@@ -219,7 +235,7 @@ def main(prop, tier, seed, replay_path=None):
         for ln in t['lines']:
             ln.pop('classes', None)
     json.dump([t for t in traces if t['lines']], open(path, 'w'))
-    tlc.write_mc(d2, 'SystemTrace', {'N': N}, spec='TSpec', invariants=['Report'])
+    tlc.write_mc(d2, 'SystemTrace', {'N': N, 'K': K}, spec='TSpec', invariants=['Report'])
     tr = tlc.run(d2, env={'TRACE_FILE': path}, timeout=3000, heap='12g')
     reports = {j['id']: j for j in tr['json'] if isinstance(j, dict) and 'id' in j}
     if tr['error'] or any(t['id'] not in reports for t in traces if t['lines']):
